@@ -101,8 +101,12 @@ OperandClass(def, X, U) ==
     ELSE IF PresenceNotIn(X) THEN "exists-notin"
     ELSE "other"
 ClassRank(c) == CASE c = "unsat-operand" -> 3 [] c = "bounded-notin" -> 2 [] c = "exists-notin" -> 1 [] OTHER -> 0
+\* A wrong "compatible" verdict on a key can only come from believing that an operand accepts an absent label (or has
+\* a value) when it does not; the culprits are the defined operands that do not accept an absent label.  The class of
+\* the disagreement is the highest-ranked class among the culprits ("other" when there is none).
 CompatClass(defA, A, defB, B, U) ==
-    LET ca == OperandClass(defA, A, U)  cb == OperandClass(defB, B, U)
+    LET ca == IF defA /\ ~AbsentAll(A) THEN OperandClass(defA, A, U) ELSE "other"
+        cb == IF defB /\ ~AbsentAll(B) THEN OperandClass(defB, B, U) ELSE "other"
     IN IF ClassRank(ca) >= ClassRank(cb) THEN ca ELSE cb
 
 \* ---------------------------------------------------------------- witness completeness of a universe
